@@ -25,6 +25,9 @@ Definition model (c : case) : fs * result errno unit :=
   | OpReplaceTypes =>
       GenLayerSharedImp.gen_replace_layer_types (Ty:=unit) (Md:=unit) (fun _ : bytes => Some (None, tt)) (fun _ => Toml.TTbl [])
                                                (c_layers c) (c_name c) tt (c_pre c)
+  | OpReplaceMetadata =>
+      GenLayerSharedImp.gen_replace_layer_metadata (Ty:=unit) (Md:=unit) (fun _ : bytes => Some (None, tt)) (fun _ => Toml.TTbl [])
+                                                  (c_layers c) (c_name c) tt (c_pre c)
   end.
 
 (* where the model holds a document, the contents are not compared (the encoder is a parameter of the model) *)
@@ -46,7 +49,7 @@ Definition res_agrees (o : c11_res) (m : result errno unit) : bool :=
 Definition model_regenerated (c : case) : fs * result errno unit :=
   match c_op c with
   | OpDeleteLayer => GenLayerSharedImp.gen_delete_layer (c_layers c) (c_name c) (c_pre c)
-  | OpRdr | OpRecreate | OpReadLayer | OpWriteLayer | OpReplaceTypes => model c
+  | OpRdr | OpRecreate | OpReadLayer | OpWriteLayer | OpReplaceTypes | OpReplaceMetadata => model c
   end.
 
 (* BuildContext::uncached_layer on an existing layer, as handle_layer composes it: read_layer; delete_layer when
@@ -78,7 +81,7 @@ Definition agrees (c : case) : bool :=
   match c_op c with
   | OpReadLayer => let '(s', r) := model c in res_agrees_read (c_res c) r && fs_eqb s' (c_post c)
   | OpWriteLayer => let '(s', r) := model c in res_agrees (c_res c) r && fs_eqb (doc_blank s' s') (doc_blank s' (c_post c))
-  | OpReplaceTypes =>
+  | OpReplaceTypes | OpReplaceMetadata =>
       (* a document the real parser rejects (ROther): nothing is written *)
       match c_res c with
       | ROther => fs_eqb (c_post c) (c_pre c)
